@@ -40,6 +40,10 @@ CLAIMED['C20'] = dict(level=MC, ref='DESIGN.md §4 C20',
    text='GMRF._call is compared, as a symbolic expression, with the Gaussian quadratic form built from the matrix GMRF.precision_matrix() publishes (plain, weighted, time-aware with symbolic heights whose orderings are path regions, shapes [] and [2]); GMRFGammaIntegrated and ConstantCoalescentIntegrated (with SYMBOLIC shape / rate hyper-parameters, obtained by substituting a symbolic math module) are compared with the closed forms of the Gamma / inverse-gamma integrals; sufficient_statistics() of both piecewise-constant coalescents must reproduce log_prob on every event-ordering region (coverage certified by the solver). Known findings (weighted / time-aware precision matrix) are reported as KNOWN-FINDING.',
    note='Reals not floats; the Gamma integral identity is a trusted lemma (lgamma/log uninterpreted) - numerical quadrature only in replays (mpmath); field length <= 4 quick / 5 thorough, n = 3 taxa quick / 4 thorough, grid <= 1 quick / 2 thorough; GMRFCovariate outside the claim.',
    technique=TECH_A + ' with solver-certified path-region coverage; three separately written code paths compared as expressions')
+CLAIMED['C17'] = dict(level='other', engine='crosshair', ref='DESIGN.md §4 C17',
+   text='CrossHair (z3) symbolically executes the real state_dict/_state_dict/load_state_dict/_load_state_dict of MCMC, every MCMCOperator, HMCOperator, LeapfrogIntegrator, AdaptiveStepSize, DualAveragingStepSize, MassMatrixAdaptor, Optimizer (SGD+momentum, Adam, Adagrad, RMSprop with StepLR/LambdaLR/ExponentialLR/CosineAnnealingLR/MultiStepLR), plus TensorEncoder/TensorDecoder/ParameterEncoder/update_parameters, with SYMBOLIC counters, tuning values, flags, window contents and dtype/nn choices; the JSON text layer is a pure-Python model of the JSON data model validated against the real json module on every witness. Post-conditions: loading never raises and every state field equals its value before the round trip. Each case has a reachability twin; counterexamples are replayed through the real json module on the real classes.',
+   note='torch tensors and torch.optim internals stay concrete (CrossHair realises at the C boundary; torch.optim.Optimizer.load_state_dict runs untraced); HMC/MCMC composite cases use a finite grid of symbolic floats, leaf cases the full float domain; "a resumed run visits the same trajectory" is whole-program behaviour outside the solver\'s reach and outside the claim (noted: _epoch is saved before being incremented); StanWindowedAdaptation cannot be instantiated; LBFGS internals outside.',
+   technique='CrossHair symbolic execution (z3) of the real state_dict / load_state_dict pairs through a modelled JSON round trip; reachability twins; replay through the real json module')
 CLAIMED['C18'] = dict(level='other', engine='crosshair', ref='DESIGN.md §4 C18',
    text='CrossHair (z3) symbolically executes the real save_parameters against a modelled file system with a SYMBOLIC pre-state (each of name/.old/.new absent, complete or truncated, constrained by a representation invariant that CrossHair itself shows inductive), a symbolic crash index and a symbolic number of lost buffered chunks; post-conditions: a complete checkpoint remains and name is never truncated. One inductive step from an arbitrary valid state covers any number of consecutive interrupted writes. Counterexamples are replayed on a real temporary directory (single step and whole crash chain from a clean directory) before being reported. Bounded by the chunk count of the modelled json.dump and the per-condition time budget, hence "other" (bounded symbolic execution), not proof.',
    note='File-system model (atomic rename, partial writes, buffered data lost on crash before close) validated against the real os/open on hundreds of concrete runs per check; json.dump modelled as K chunk writes; process crash, not power loss (no fsync modelling); first write into an empty directory outside the claim; safely=False / overwrite=True in-place modes are documented non-atomic and only checked for leaving siblings untouched.',
